@@ -126,3 +126,12 @@ LEVEL_TEXT["C06"] = ("Seeded exploration of writer/requester interleavings of a 
    "published targets are flagged at rest (lost wake-up), preload-hint bodies are compared with the listed part, delta updates "
    "with the full playlist of the same instant. Sampling of schedules and histories.")
 NOT_APPLICABLE.pop("C06", None)
+
+META["C08"] = {"level": "exploration",
+   "rule": "serial profile: one writer (parameter changes, disk finalisation) and 1-6 reader tasks issuing every kind of URL, interleaved by the scheduler at six yield hooks (server dispatch, preload-hint delegate, segment/part copy, partDisk.Reader, between Unlock and Broadcast); reference snapshots of all playlists are taken at every rest point and each response must equal one taken between its invoke and return. race profile: the same workload under -race, where one scheduler step releases the writer (a batch of writes, optionally Close) and all readers at once so that they run truly concurrently. Non-trivial = content appeared (serial) / at least one burst (race); distinct = distinct scheduler decision/observation signatures.",
+   "real": MUX_REAL + ["Go race detector (ThreadSanitizer) in the race profile"], "stub": MUX_STUB,
+   "assumptions": MUX_ASSUME + ["race profile: which accesses overlap inside a burst is decided by the Go runtime, not by the tape; a race report is sound (happens-before), its replay is re-running the seed up to 20 times rather than exact"]}
+LEVEL_TEXT["C08"] = ("Seeded exploration: deterministic interleaving of reader requests with writer steps at yield hooks with an "
+   "atomic-view oracle against reference snapshots, plus bursts of true concurrency under the race detector. Data races are "
+   "decided by happens-before analysis of the executions sampled, panics by the process, views by comparison. Sampling.")
+NOT_APPLICABLE.pop("C08", None)
